@@ -531,6 +531,8 @@ class ktensor:
             assert (
                 False
             ), "Weighting and permuting the ktensor at the same time is not allowed."
+        if weight_factor is not None and weight_factor not in range(self.ndims):
+            assert False, "Parameter weight_factor must be in range(self.ndims)"
 
         # arrange columns of factor matrices using the permutation provided
         if permutation is not None and isinstance(
@@ -538,6 +540,10 @@ class ktensor:
         ):
             if len(permutation) == self.ncomponents:
                 permutation = np.asarray(permutation)
+                if not np.array_equal(
+                    np.sort(permutation), np.arange(self.ncomponents)
+                ):
+                    assert False, "Parameter permutation is not a valid permutation."
                 self.weights = self.weights[permutation]
                 for i in range(self.ndims):
                     self.factor_matrices[i] = self.factor_matrices[i][:, permutation]
@@ -1359,6 +1365,16 @@ class ktensor:
          [0.5 0.5]
          [0.5 0.5]]
         """
+        if (
+            weight_factor is not None
+            and not (isinstance(weight_factor, str) and weight_factor == "all")
+            and weight_factor not in range(self.ndims)
+        ):
+            assert False, (
+                "Parameter weight_factor is invalid; must be 'all' or an int in "
+                "range of number of dimensions"
+            )
+
         # when mode is specified, just normalize self.factor_matrices[mode]
         if mode is not None:
             if mode in range(self.ndims):
@@ -1455,6 +1471,9 @@ class ktensor:
         [[ 0.70710678...  0.70710678...]
          [ 0.70710678... -0.70710678...]]
         """
+        if n not in range(self.ndims):
+            assert False, "Parameter n must be in range(self.ndims)"
+
         M = self.weights[:, None] @ self.weights[:, None].T
         for i in range(self.ndims):
             if i != n:
@@ -1582,6 +1601,8 @@ class ktensor:
         [[5. 6.]
          [7. 8.]]
         """
+        if mode not in range(self.ndims):
+            assert False, "Parameter mode must be in range(self.ndims)"
         for r in range(self.ncomponents):
             self.factor_matrices[mode][:, [r]] = (
                 self.factor_matrices[mode][:, [r]] * self.weights[r]
